@@ -1,7 +1,7 @@
-\* negative control: seeded defect "lookupStrict" must violate the properties (self-test only)
+\* negative control: seeded defect "sharedSeen" must violate the properties (self-test only)
 SPECIFICATION Spec
 CONSTANTS F = 3
-  Variant = "lookupStrict"
+  Variant = "sharedSeen"
   Steps = {2}
   MaxN = 41
 INVARIANTS Valid Faithful FaithfulAnyReader Enumerates EarlyExit Reentrant ReadersAgree EmptyNoTree RejectsExactly
